@@ -1035,6 +1035,36 @@ def scale_extreme_k_lines(rng, fmts):
     return lines
 
 
+def wide_exponent_prog_lines(rng, per):
+    """core operations (no loops over the exponent range) in formats whose exponent field is as wide as the i64 exponent
+    arithmetic allows (C19Ovf: e <= 62): extreme operands, every mode, scale amounts at the i64 limits, casts both ways"""
+    lines = []
+    for (E, P) in [(61, 24), (61, 113), (62, 11), (48, 53), (33, 64)]:
+        for m in MODES:
+            s = Sem(E, P, m)
+            ext = [ftok("N", 0, s.emax, 2 ** P - 1), ftok("N", 1, s.emax, 2 ** (P - 1)), ftok("N", 0, s.emin, 1), ftok("N", 1, s.emin, 2 ** (P - 1) - 1),
+                   ftok("N", 0, s.emin, 2 ** (P - 1)), ftok("N", 0, 0, 2 ** (P - 1)), ftok("N", 1, -1, 2 ** P - 1), ftok("N", 0, s.emax // 2, 2 ** (P - 1) + 1),
+                   ftok("N", 1, s.emin // 2, 2 ** P - 1)] + SPECIALS[:5]
+            for _ in range(per):
+                a, b = rng.choice(ext), rng.choice(ext)
+                ins = ["lit/%s/%s" % (s, a), "lit/%s/%s" % (s, b)]
+                for op in ("add", "sub", "mul", "div"):
+                    ins.append("%s/%s/0/1" % (op, m))
+                k = rng.choice([2 ** 63 - 1, -2 ** 63, s.emax - s.emin, s.emin - s.emax, s.emax, -s.emax, rng.randrange(-2 ** 62, 2 ** 62), 1, -1])
+                ins.append("scale/%s/%d/%d" % (m, k, rng.randrange(2, 6)))
+                G = rng.choice([Sem(5, 11, m), Sem(E, P + 3, m), Sem(E - 1, P, m), Sem(11, 53, m), Sem(max(2, E - 30), max(2, P - 5), m)])
+                ins.append("cast/%s/%s/%d" % (G, rng.choice(MODES), rng.randrange(0, 7)))
+                ins.append("cast/%s/%s/%d" % (s, m, len(ins) - 1))
+                ins.append("trunc/%d" % rng.randrange(0, 6))
+                ins.append("round/%d" % rng.randrange(0, 6))
+                ins.append("min/0/1")
+                ins.append("max/2/3")
+                ins.append("fromu64/%s/%d" % (s, rng.choice([0, 1, 2 ** 64 - 1, rng.randrange(2 ** 64)])))
+                ins.append("fromi64/%s/%d" % (s, rng.choice([-2 ** 63, -1, 2 ** 63 - 1])))
+                lines.append("prog " + " ".join(ins))
+    return lines
+
+
 def nat_special_pairs():
     """every ordered pair of the special FP64 / FP32 patterns x every native-compared operation"""
     p64 = [0, 1 << 63, 1, (1 << 63) | 1, 0x7ff0000000000000, 0xfff0000000000000, 0x7ff8000000000000, 0x7fefffffffffffff, 0xffefffffffffffff,
@@ -1089,6 +1119,36 @@ def exp_threshold_lines(rng, fmts, names=("exp", "sigmoid"), modes=("E", "A")):
                     for sg in (0, 1):
                         for name in names:
                             lines.append("fn %s %s %s" % (name, s, nearest_tok(s, a * f, sg, rng.randrange(-2, 3))))
+    return lines
+
+
+def exp_narrow_wide_lines(rng, per, names=("exp", "sigmoid"), modes=("E", "A")):
+    """few significand bits, many exponent bits, large arguments (|x| up to 1024): the squarings that undo the range
+    reduction amplify the error of the Taylor value 2^12-fold, which a guard-bit budget sized by the precision alone
+    does not cover"""
+    lines = []
+    for (E, P) in [(11, 12), (11, 8), (11, 10), (11, 16), (11, 20), (12, 14), (10, 9), (15, 12), (11, 24)]:
+        for m in modes:
+            s = Sem(E, P, m)
+            for name in names:
+                for _ in range(per):
+                    a = rand_arg(rng, s, 6, 9)
+                    lines.append("fn %s %s %s" % (name, s, a))
+                for _ in range(per // 4):
+                    lines.append("fn %s %s %s" % (name, s, rand_arg(rng, s, 3, 5)))
+    return lines
+
+
+def exp_top_binade_lines(ps, names=("exp",), modes=("E", "A")):
+    """every argument in [512, 1024) of the 11-exponent-bit formats with the given (small) precisions: the most
+    squarings the property's domain allows on top of the fewest guard bits (exhaustive over that binade)"""
+    lines = []
+    for P in ps:
+        for m in modes:
+            s = Sem(11, P, m)
+            for name in names:
+                for mant in range(2 ** (P - 1), 2 ** P):
+                    lines.append("fn %s %s %s" % (name, s, ftok("N", 0, 9, mant)))
     return lines
 
 
